@@ -334,7 +334,7 @@ func (w *World) classifyRefusedPNFT(obs *TxObs, msg sdk.Msg) error {
 			w.Label("pnft former owner refused")
 		}
 		// completeness (C12): a fresh pair in an existing denom, minted by its owner, is accepted
-		if w.On("C12") && obs.AntePassed && len(obs.Msgs) == 1 && obs.Step.Exec == 0 && obs.Res.Codespace != "sdk" {
+		if w.On("C12") && obs.AntePassed && len(obs.Msgs) == 1 && !obs.Step.Wrapped() && obs.Res.Codespace != "sdk" {
 			if d := m.Denoms[x.DenomId]; d != nil && d.Owner == x.Creator && m.Tokens[TokenKey{x.DenomId, x.Id}] == nil {
 				return vio("C12", "mint of fresh pair <%q,%q> by the denom's owner was refused (pairs alias): %s", x.DenomId, x.Id, obs.Res.Log)
 			}
